@@ -11,13 +11,12 @@ import (
 
 // ExpSession is a real exporting process connected to a raw recording peer.
 type ExpSession struct {
-	Proto    string
-	Domain   uint32
-	EP       *exporter.ExportingProcess
-	TCP      *peers.TCPPeer
-	Conn     *peers.ConnRec
-	UDP      *peers.UDPPeer
-	consumed int
+	Proto  string
+	Domain uint32
+	EP     *exporter.ExportingProcess
+	TCP    *peers.TCPPeer
+	Conn   *peers.ConnRec
+	UDP    *peers.UDPPeer
 }
 
 func NewExpSession(proto string, v6 bool, domain uint32, tempRefTimeout uint32, checkConn time.Duration) (*ExpSession, error) {
@@ -53,38 +52,23 @@ func NewExpSession(proto string, v6 bool, domain uint32, tempRefTimeout uint32, 
 	return s, nil
 }
 
-// Take returns the next n bytes of the TCP stream, or the next datagram over UDP. ok=false
-// means they did not arrive within the timeout.
+// Take returns (and removes from the record) the next n bytes of the TCP stream, or the next
+// datagram over UDP. ok=false means they did not arrive within the timeout.
 func (s *ExpSession) Take(n int, timeout time.Duration) ([]byte, bool) {
 	if s.Proto == "tcp" {
-		all, ok := s.Conn.WaitLen(s.consumed+n, timeout)
-		if !ok {
-			return all[min(s.consumed, len(all)):], false
-		}
-		b := all[s.consumed : s.consumed+n]
-		s.consumed += n
-		return b, true
+		return s.Conn.TakeN(n, timeout)
 	}
-	dgs, ok := s.UDP.WaitCount(s.consumed+1, timeout)
-	if !ok {
-		return nil, false
-	}
-	b := dgs[s.consumed].Data
-	s.consumed++
-	return b, true
+	return s.UDP.TakeOne(timeout)
 }
 
-// Pending returns what arrived beyond what Take has consumed (TCP: bytes; UDP: datagrams
-// flattened), without consuming it.
+// Pending returns what arrived and has not been taken (TCP: bytes; UDP: datagrams flattened).
 func (s *ExpSession) Pending() []byte {
 	if s.Proto == "tcp" {
-		all := s.Conn.Bytes()
-		return all[min(s.consumed, len(all)):]
+		return s.Conn.Bytes()
 	}
 	var out []byte
-	dgs := s.UDP.All()
-	for i := s.consumed; i < len(dgs); i++ {
-		out = append(out, dgs[i].Data...)
+	for _, d := range s.UDP.All() {
+		out = append(out, d.Data...)
 	}
 	return out
 }
